@@ -129,7 +129,12 @@ def actual(doc, anchor=(2, 12)):
 
 def check_case(ctx, case):
     grid = case['grid']
-    r = ctx.conv(gen.text_of(grid))
+    if key_of(grid)[0] % 8 == 0:
+        # the same grid put together character by character through the public StringBuffer API, in a shuffled order
+        r = ctx.conv(gen.text_of(grid), entry=8, ow=float(key_of(grid)[1] * 256 + key_of(grid)[2] + 1))
+        ctx.tag('assembled_through_string_buffer')
+    else:
+        r = ctx.conv(gen.text_of(grid))
     if not r.ok:
         return 'conversion failed: ' + r.fail_text()
     rs, rt, nstroke = ref(grid)
